@@ -1501,12 +1501,13 @@ Proof.
              end) in *.
   assert (Hitems : Forall2 (fun x y => hsf x = hsf y /\ forall mh, F mh x = F mh y) a b).
   { revert Hw. generalize (zmaxl (flat_map hsf b)). intros mh Hw. clear Hst.
-    induction H as [|x y l l' Hxy _ IH]; [constructor|]. cbn [map] in Hw. inversion Hw; subst.
+    induction H as [|x y l l' Hxy _ IH]; [constructor|]. cbn [map] in Hw. pose proof (Forall_inv Hw) as Hw1. pose proof (Forall_inv_tail Hw) as Hw2.
     constructor; [|apply IH; assumption].
-    apply (xcol_fixed_item s x y Efx Hxy). destruct y as [[o ib] xi]. cbn [fst]. unfold F, cw in H2.
-    destruct o; [|exact I|exact I]. destruct ib; cbn [fst] in H2; exact H2. }
+    apply (xcol_fixed_item s x y Efx Hxy). destruct y as [[o ib] xi]. cbn [fst]. unfold F, cw in Hw1.
+    destruct o; [|exact I|exact I]. destruct ib; cbn [fst] in Hw1; exact Hw1. }
   assert (Ehs : flat_map hsf a = flat_map hsf b).
   { clear - Hitems. induction Hitems as [|x y l l' [H1 _] _ IH]; [reflexivity|]. cbn [flat_map]. rewrite H1, IH. reflexivity. }
+  change (map (F (zmaxl (flat_map hsf a))) a = map (F (zmaxl (flat_map hsf b))) b).
   rewrite Ehs. generalize (zmaxl (flat_map hsf b)). intro mh.
   clear - Hitems. induction Hitems as [|x y l l' [_ H2] _ IH]; [reflexivity|]. cbn [map]. rewrite H2, IH. reflexivity.
 Qed.
@@ -1522,10 +1523,11 @@ Proof.
   destruct (snd s) as [maxrow|] eqn:Es.
   - (* box *)
     revert Hw. generalize (combine ws b) (combine ws a) H. clear H. intros zb za H Hw.
-    induction H as [|p q l l' Hpq _ IH]; [reflexivity|]. cbn [map] in *. inversion Hw; subst. rewrite (IH H3). f_equal.
+    induction H as [|p q l l' Hpq _ IH]; [reflexivity|]. cbn [map] in *.
+    pose proof (Forall_inv Hw) as Hw1. pose proof (Forall_inv_tail Hw) as Hw2. rewrite (IH Hw2). f_equal.
     assert (Hq : 1 <= fst q).
-    { destruct q as [w [[o ib] xi]]. cbn [fst]. unfold cw in H2.
-      destruct (i_box (xc xi) || ib); [exact H2|]. destruct (x_flow xi); [exact H2|]. destruct (is_cpack o); exact H2. }
+    { destruct q as [w [[o ib] xi]]. cbn [fst]. unfold cw in Hw1.
+      destruct (i_box (xc xi) || ib); [exact Hw1|]. destruct (x_flow xi); [exact Hw1|]. destruct (is_cpack o); exact Hw1. }
     destruct (xcol_sized_item s p q Efx Hpq Hq) as [Hb [Hf [Hr Hp]]].
     destruct Hpq as [Hw0 [Ho _]].
     destruct p as [w [[o ib] xi]], q as [w' [[o' ib'] xi']]. cbn [fst snd] in *. inversion Ho; subst o' ib'. subst w'.
@@ -1548,22 +1550,317 @@ Proof.
     assert (Hitems : Forall2 (fun p q => hsf p = hsf q /\ forall mx, G mx p = G mx q) (combine ws a) (combine ws b)).
     { revert Hw. generalize (Z.max 1 (zmaxl (flat_map hsf (combine ws b)))). intros mx Hw.
       revert Hw. generalize (combine ws b) (combine ws a) H. clear H. intros zb za H Hw.
-      induction H as [|p q l l' Hpq _ IH]; [constructor|]. cbn [map] in Hw. inversion Hw; subst.
+      induction H as [|p q l l' Hpq _ IH]; [constructor|]. cbn [map] in Hw.
+      pose proof (Forall_inv Hw) as Hw1. pose proof (Forall_inv_tail Hw) as Hw2.
       constructor; [|apply IH; assumption].
       assert (Hq : 1 <= fst q).
-      { destruct q as [w [[o ib] xi]]. cbn [fst]. unfold G, cw in H2.
-        destruct ib; [exact H2|]. destruct (x_flow xi); [exact H2|]. destruct (is_cpack o); exact H2. }
+      { destruct q as [w [[o ib] xi]]. cbn [fst]. unfold G, cw in Hw1.
+        destruct ib; [exact Hw1|]. destruct (x_flow xi); [exact Hw1|]. destruct (is_cpack o); exact Hw1. }
       destruct (xcol_sized_item s p q Efx Hpq Hq) as [Hb [Hf [Hr Hp]]].
       destruct Hpq as [Hw0 [Ho _]].
       destruct p as [w [[o ib] xi]], q as [w' [[o' ib'] xi']]. cbn [fst snd] in *. inversion Ho; subst o' ib'. subst w'.
       unfold hsf, G. rewrite Hf. destruct ib; [split; reflexivity|].
       assert (E0 : 0 <? w = true) by qlia. rewrite E0.
       destruct (x_flow xi') eqn:Efl.
-      + rewrite (Hr eq_refl (or_intror (conj eq_refl eq_refl))). split; reflexivity.
+      + rewrite (Hr eq_refl (or_intror (conj Es eq_refl))). split; reflexivity.
       + destruct (is_cpack o) eqn:Ecp; [|split; reflexivity].
-        rewrite (Hp eq_refl eq_refl (or_intror (conj eq_refl eq_refl))). split; reflexivity. }
+        rewrite (Hp eq_refl eq_refl (or_intror (conj Es eq_refl))). split; reflexivity. }
     assert (Ehs : flat_map hsf (combine ws a) = flat_map hsf (combine ws b)).
     { clear - Hitems. induction Hitems as [|x y l l' [H1 _] _ IH]; [reflexivity|]. cbn [flat_map]. rewrite H1, IH. reflexivity. }
+    change (map (G (Z.max 1 (zmaxl (flat_map hsf (combine ws a))))) (combine ws a)
+            = map (G (Z.max 1 (zmaxl (flat_map hsf (combine ws b))))) (combine ws b)).
     rewrite Ehs. generalize (Z.max 1 (zmaxl (flat_map hsf (combine ws b)))). intro mx.
     clear - Hitems. induction Hitems as [|x y l l' [_ H2] _ IH]; [reflexivity|]. cbn [map]. rewrite H2, IH. reflexivity.
+Qed.
+
+Lemma combine_set_inner {A B} (opts : list A) (l : list B) i o x' :
+  nthz opts i = Some o -> combine opts (set_nth_g l i x') = set_nth_g (combine opts l) i (o, x').
+Proof.
+  revert l i. induction opts as [|a opts IH]; intros l i Hn; [rewrite nthz_nil in Hn; discriminate|].
+  destruct l as [|y l]; [reflexivity|]. cbn [set_nth_g combine]. rewrite nthz_cons in Hn.
+  destruct (i =? 0) eqn:E; [inversion Hn; reflexivity|]. destruct (i <? 0); [discriminate|].
+  cbn [combine]. rewrite (IH l (i - 1) Hn). reflexivity.
+Qed.
+
+(* the entry of get_column_sizes of column i: its size is the size class [xcol_cs] *)
+Lemma xcs_nth_cs its fp dc mw s i w h cs it :
+  nthz (xcolumns_sizes its fp dc mw s) i = Some (w, h, cs) -> nthz its i = Some it ->
+  (is_fixed s = false -> nthz (combine (xcolumn_widths its fp dc mw (fst s)) its) i = Some (w, it)) /\
+  (cs = xcol_cs s w it \/ exists c n n', cs = (c, Some n) /\ xcol_cs s w it = (c, Some n')).
+Proof.
+  intros Hn Hi. unfold xcolumns_sizes in Hn. unfold xcol_cs. destruct it as [[o ib] xi]. destruct (is_fixed s) eqn:Efx.
+  - split; [intro H; discriminate H|].
+    destruct (xcolumns_fixed_supported its); [|rewrite nthz_nil in Hn; discriminate].
+    rewrite nthz_map, Hi in Hn. cbn [option_map] in Hn.
+    destruct o; [destruct ib|..]; inversion Hn; subst; [right; eauto|left; reflexivity..].
+  - destruct (snd s) as [maxrow|] eqn:Es; rewrite nthz_map in Hn;
+      destruct (nthz (combine (xcolumn_widths its fp dc mw (fst s)) its) i) as [[w0 [[o1 ib1] xi1]]|] eqn:E; try discriminate;
+      pose proof E as E'; apply nthz_combine_inv in E' as [_ Ei]; rewrite Hi in Ei; inversion Ei; subst o1 ib1 xi1;
+      cbn [option_map] in Hn.
+    + destruct (i_box (xc xi) || ib); [inversion Hn; subst; split; [intros _; reflexivity|right; eauto]|].
+      destruct (x_flow xi); [inversion Hn; subst; split; [intros _; reflexivity|left; reflexivity]|].
+      destruct (is_cpack o); inversion Hn; subst; (split; [intros _; reflexivity|]); [left; reflexivity|right; eauto].
+    + destruct ib; [inversion Hn; subst; split; [intros _; reflexivity|right; eauto]|].
+      destruct (x_flow xi); [inversion Hn; subst; split; [intros _; reflexivity|left; reflexivity]|].
+      destruct (is_cpack o); inversion Hn; subst; (split; [intros _; reflexivity|]); [left; reflexivity|right; eauto].
+Qed.
+
+Definition packrel (p q : (Z * Z * size) * (copt * bool * xinfo)) : Prop :=
+  fst p = fst q /\ fst (x_pack (snd (snd p))) = fst (x_pack (snd (snd q))) /\
+  (is_fixed (snd (fst q)) = true -> snd (x_pack (snd (snd p))) = snd (x_pack (snd (snd q)))).
+
+Lemma forallb_impl2 {A} (f : A -> bool) (R : A -> A -> Prop) a b :
+  (forall x y, R x y -> f y = true -> f x = true) -> Forall2 R a b -> forallb f b = true -> forallb f a = true.
+Proof.
+  intros HR H. induction H as [|x y l l' Hxy _ IH]; [reflexivity|]. cbn [forallb]. intro Hb.
+  apply andb_true_iff in Hb as [H1 H2]. rewrite (HR _ _ Hxy H1), (IH H2). reflexivity.
+Qed.
+
+Lemma xcolumns_static_stat a b mw maxcol :
+  Forall2 crel_stat a b ->
+  map (fun it : copt * bool * xinfo => xstatic_w (fst (fst it)) (snd it) mw maxcol) a
+  = map (fun it : copt * bool * xinfo => xstatic_w (fst (fst it)) (snd it) mw maxcol) b.
+Proof.
+  intro H. induction H as [|[[o ib] xi] [[o' ib'] xi'] l l' [Ho Hs] _ IH]; [reflexivity|].
+  cbn [map fst snd] in *. inversion Ho; subst. rewrite (xstatic_w_stat o' xi xi' mw maxcol Hs), IH. reflexivity.
+Qed.
+
+Lemma xcolumns_fits_cong a b fp dc mw s :
+  xcolumns_sizes a fp dc mw s = xcolumns_sizes b fp dc mw s -> Forall2 crel_stat a b ->
+  Forall2 packrel (combine (xcolumns_sizes b fp dc mw s) a) (combine (xcolumns_sizes b fp dc mw s) b) ->
+  xcolumns_fits b fp dc mw s = true -> xcolumns_fits a fp dc mw s = true.
+Proof.
+  intros Es Hst Hpk Hf. unfold xcolumns_fits in *. rewrite Es. cbv zeta in *.
+  assert (El : zlen a = zlen b) by (unfold zlen; rewrite (forall2_length _ _ _ Hst); reflexivity). rewrite El.
+  assert (E1 : forallb (fun it : copt * bool * xinfo => 0 <=? xstatic_w (fst (fst it)) (snd it) mw (fst s)) a
+             = forallb (fun it : copt * bool * xinfo => 0 <=? xstatic_w (fst (fst it)) (snd it) mw (fst s)) b).
+  { apply (forallb_cong _ crel_stat); [|exact Hst]. intros [[o ib] xi] [[o' ib'] xi'] [Ho Hx]. cbn [fst snd] in *.
+    inversion Ho; subst. rewrite (xstatic_w_stat o' xi xi' mw (fst s) Hx). reflexivity. }
+  assert (E2 : map (fun it : copt * bool * xinfo => xstatic_w (fst (fst it)) (snd it) mw (fst s) + dc) a
+             = map (fun it : copt * bool * xinfo => xstatic_w (fst (fst it)) (snd it) mw (fst s) + dc) b).
+  { clear - Hst. induction Hst as [|[[o ib] xi] [[o' ib'] xi'] l l' [Ho Hx] _ IH]; [reflexivity|].
+    cbn [map fst snd] in *. inversion Ho; subst. rewrite (xstatic_w_stat o' xi xi' mw (fst s) Hx), IH. reflexivity. }
+  rewrite E1, E2.
+  apply andb_true_iff in Hf as [Hf H8]. apply andb_true_iff in Hf as [Hf H7].
+  rewrite Hf, H8. cbn [andb]. rewrite andb_true_r.
+  refine (forallb_impl2 _ packrel _ _ _ Hpk H7).
+  intros [e1 [ob1 x1]] [e2 [ob2 x2]] [He [Hp1 Hp2]] Hq. cbn [fst snd] in *. subst e1.
+  apply orb_true_iff in Hq as [Hq|Hq]; [rewrite Hq; reflexivity|].
+  destruct (is_fixed (snd e2)) eqn:Efx; [|reflexivity]. cbn [negb orb]. rewrite Hp1, (Hp2 eq_refl). exact Hq.
+Qed.
+
+Lemma xcolumns_info_cong s a b fp fp' dc mw :
+  Forall2 crel_stat a b -> Forall2 (fun x y : copt * bool * xinfo => feq (xc (snd x)) (xc (snd y))) a b ->
+  xcolumns_sizes a fp' dc mw s = xcolumns_sizes b fp dc mw s ->
+  xieq s (xcolumns_info a fp' dc mw) (xcolumns_info b fp dc mw).
+Proof.
+  intros Hst Hfe Es. unfold xcolumns_info, xcolumns_cinfo. rewrite (xcolumns_sizing_stat _ _ Hst).
+  destruct (xcolumns_sizing b) as [[bx f] x]. unfold xieq. cbn [xc x_flow x_fixed x_pack fst snd i_rows].
+  split.
+  { repeat split; cbn [i_sel i_hascur i_hasmove i_box]; try reflexivity.
+    apply (existsb_cong _ _ _ _ (fun x y H => proj1 H) Hfe). }
+  split; [reflexivity|]. split; [reflexivity|]. split.
+  - pose proof (xcolumns_fixed_widths_stat a b fp' fp dc mw Hst) as G.
+    assert (G2 : zlen (xcolumns_sizes a fp' dc mw fixed_size) = zlen (xcolumns_sizes b fp dc mw fixed_size)).
+    { unfold zlen. f_equal. rewrite <- (map_length (fun t : Z * Z * size => fst (fst t))), G, map_length. reflexivity. }
+    rewrite G, G2. reflexivity.
+  - split.
+    + intro Efx. rewrite <- (xcs_fixed_indep a fp' dc mw s Efx), <- (xcs_fixed_indep b fp dc mw s Efx), Es. reflexivity.
+    + intros Efx Esn. destruct s as [c r]. cbn [fst snd] in *. subst r. rewrite Es. reflexivity.
+Qed.
+
+Lemma crel_stat_refl x : crel_stat x x. Proof. split; [reflexivity|apply xstat_refl]. Qed.
+Lemma packrel_refl p : packrel p p. Proof. repeat split. Qed.
+Lemma xcrel_f_refl s x : xcrel_f s x x. Proof. split; [reflexivity|apply xieq_refl]. Qed.
+Lemma xzrel_refl s p : xzrel s p p. Proof. split; [reflexivity|]. split; [reflexivity|apply xieq_refl]. Qed.
+
+Lemma xmove_ok_columns items fp dc mw : Forall (fun it => XMoveOK (snd it)) items -> XMoveOK (Columns items fp dc mw).
+Proof.
+  intro IH. destruct (sized_tree (Columns items fp dc mw)) eqn:Hz; [apply xmove_ok_sized; exact Hz|].
+  intros s col row. rewrite (xview_unsized' _ Hz I). unfold xnodeof, xselfof. cbn [xkids xnode_of fst snd].
+  set (kids := map (fun it : copt * bool * widget => xview (snd it)) items).
+  set (its := combine (map fst items) (map snd kids)).
+  intros Hf Hm. cbn [xinterp interp v_move v_info] in *. unfold interp_move.
+  destruct (xinterp_fits_inv _ _ _ _ Hf) as [Hsok [Hn Hkids]].
+  assert (Elen : length (map fst items) = length (map snd kids)) by (unfold kids; rewrite !map_length; reflexivity).
+  assert (Eki : map snd its = map snd kids) by (apply map_snd_combine; exact Elen).
+  assert (Eopts : map fst its = map fst items) by (apply map_fst_combine; exact Elen).
+  assert (Ezl : zlen its = zlen items).
+  { unfold its. rewrite (zlen_combine_same _ _ Elen). apply zlen_map. }
+  assert (Ezk : zlen kids = zlen items) by (unfold kids; apply zlen_map).
+  unfold xcolumns_node in Hn, Hkids |- *. cbn [n_move n_fits n_place n_info] in *.
+  destruct (xcolumns_move its fp dc mw s col row) as [| |i|i cs c' r' nf] eqn:E; cbn [m_ok m_w m_asked]; cbv zeta.
+  - intro H; discriminate H.
+  - exfalso. unfold xcolumns_move in E. cbv zeta in E. destruct (columns_best _ _ _ _ _ _ _) as [[[[? ?] ?] ?]|]; [|discriminate].
+    destruct (i_hasmove _) in E; discriminate.
+  - (* the chosen column has no move_cursor_to_coords: only the focus moves *)
+    intros _. cbn [set_focus]. unfold xcolumns_move in E. cbv zeta in E.
+    destruct (columns_best (xcolumns_sizes its fp dc mw s) (map (fun it : copt * bool * xinfo => i_sel (xc (snd it))) its) 0 0 dc col None)
+      as [[[[i0 x0] e0] cs0]|] eqn:Ebest; [|discriminate].
+    destruct (i_hasmove _) in E; [discriminate|]. inversion E; subst i0. clear E.
+    destruct (xcolumns_best_placed its fp dc mw s col i x0 e0 cs0 Hn Ebest) as [Hi _].
+    assert (Hz' : sized_tree (Columns items i dc mw) = false) by exact Hz.
+    rewrite (xview_unsized' _ Hz' I). unfold xnodeof, xselfof. cbn [xkids xnode_of fst snd]. fold kids. fold its.
+    pose proof (xcolumns_sizes_fp its fp i dc mw s Hn) as Esz.
+    split; [reflexivity|]. split; [|split; [|intro H; congruence]].
+    + apply xcolumns_info_cong; [apply forall2_refl; apply crel_stat_refl|apply forall2_refl; intro; apply feq_refl|exact Esz].
+    + eapply (xstep_refits (Columns items fp dc mw) (Columns items i dc mw)); [exact Hf| |].
+      * unfold xcolumns_node. cbn [n_fits]. apply (xcolumns_fits_refocus its fp i dc mw s Hn). qlia.
+      * unfold xcolumns_node. cbn [n_place]. intros q Hq. rewrite Esz in Hq. apply (xcolumns_place_refocus its fp dc mw s i q Hn Hq).
+  - unfold xcolumns_move in E. cbv zeta in E.
+    destruct (columns_best (xcolumns_sizes its fp dc mw s) (map (fun it : copt * bool * xinfo => i_sel (xc (snd it))) its) 0 0 dc col None)
+      as [[[[i0 x0] e0] cs0]|] eqn:Ebest; [|discriminate].
+    destruct (i_hasmove (xc (nth_xinfo (map snd its) i0))) eqn:Ehm; [|discriminate].
+    inversion E; subst i0 cs0 c' r' nf. clear E.
+    destruct (xcolumns_best_placed its fp dc mw s col i x0 e0 cs Hn Ebest) as [Hi [Esel Hpl]].
+    destruct (Hpl fp) as [Hp Hfun]. destruct (Hpl i) as [Hp' _].
+    assert (Hii : 0 <= i < zlen items) by qlia. assert (Hik : 0 <= i < zlen kids) by qlia.
+    pose proof (xcolumns_fits_refocus its fp i dc mw s Hn Hi) as Hni_fit.
+    pose proof (xcolumns_sizes_fp its fp i dc mw s Hn) as Esz.
+    destruct (nthz_some items i) as [[[o ib] ci] Hni]; [exact Hii|].
+    assert (Hnk : nthz kids i = Some (xview ci)) by (unfold kids; rewrite nthz_map, Hni; reflexivity).
+    assert (Ekid : forall d, nth_view d (map fst kids) i = fst (xview ci)).
+    { intro d. unfold nth_view. rewrite nthz_map, Hnk. reflexivity. }
+    assert (Einfo : nth_xinfo (map snd its) i = snd (xview ci)).
+    { rewrite Eki. unfold nth_xinfo. rewrite nthz_map, Hnk. reflexivity. }
+    rewrite Ekid. rewrite Einfo in Esel, Ehm.
+    set (v := fst (xview ci)) in *. set (xi := snd (xview ci)) in *.
+    destruct (xall_all ci) as [[Ok [FO _]] _]. unfold XOk in Ok. fold v xi in Ok, FO.
+    assert (Hcf : v_fits v cs = true).
+    { specialize (Hkids _ Hp). cbn [p_idx p_size] in Hkids. rewrite Ekid in Hkids. exact Hkids. }
+    assert (IHi : XMoveOK ci).
+    { rewrite Forall_forall in IH. apply (IH (o, ib, ci)). eapply nthz_In; eauto. }
+    rewrite <- Ok in Ehm. specialize (IHi cs (Z.min (Z.max 0 (col - x0)) (e0 - x0 - 1)) row Hcf Ehm). cbv zeta in IHi. fold v xi in IHi.
+    destruct (m_ok (v_move v cs (Z.min (Z.max 0 (col - x0)) (e0 - x0 - 1)) row)) eqn:Eok; cbn [m_ok m_w m_asked]; [|intro H; discriminate H].
+    intros _. cbn [set_child set_focus] in *.
+    set (c2 := m_w (v_move v cs (Z.min (Z.max 0 (col - x0)) (e0 - x0 - 1)) row)) in *.
+    destruct (IHi eq_refl) as [Hz2 [Hieq [Hfit' Hasked]]]. clear IHi.
+    assert (Hz' : sized_tree (Columns (set_nth_w items i c2) i dc mw) = false).
+    { rewrite <- Hz. cbn [sized_tree].
+      apply (sized_set_nth_w items (fun ob : copt * bool => negb (is_cpack (fst ob))) i c2 (o, ib) ci Hni Hz2). }
+    rewrite (xview_unsized' _ Hz' I). unfold xnodeof, xselfof. cbn [xkids xnode_of fst snd].
+    rewrite xkids_set_nth_w, map_fst_set_nth_w. fold kids. rewrite !map_set_nth_g.
+    set (xi2 := snd (xview c2)) in *. set (v2 := fst (xview c2)) in *.
+    set (its' := combine (map fst items) (set_nth_g (map snd kids) i xi2)).
+    assert (Hits : nthz its i = Some (o, ib, xi)).
+    { unfold its. apply nthz_combine; [rewrite nthz_map, Hni; reflexivity|]. rewrite nthz_map, Hnk. reflexivity. }
+    assert (Hent : exists w h, nthz (xcolumns_sizes its i dc mw s) i = Some (w, h, cs)).
+    { rewrite Esz. destruct (columns_best_inv _ _ _ _ _ _ _ _ Ebest) as [Hx|[pre [t [post [Ecs [_ Hr]]]]]]; [discriminate|].
+      injection Hr as Ei Ex Ee Ec. pose proof (nthz_app_mid pre t post) as Hx. rewrite <- Ecs in Hx.
+      replace (zlen pre) with i in Hx by (clear - Ei; qlia). destruct t as [[w h] csz]. cbn [snd] in Ec. subst csz.
+      exists w, h. exact Hx. }
+    destruct Hent as [w [h Hent]].
+    destruct (xcs_nth_cs its i dc mw s i w h cs (o, ib, xi) Hent Hits) as [Hzip Hcs].
+    destruct (xcolumns_fits_inv its i dc mw s Hni_fit) as [_ [_ [_ [Hwid _]]]].
+    assert (Hopt : nthz (map fst items) i = Some (o, ib)) by (rewrite nthz_map, Hni; reflexivity).
+    assert (Eits' : its' = set_nth_g its i (o, ib, xi2)) by (apply combine_set_inner; exact Hopt).
+    assert (Hst : Forall2 crel_stat its' its).
+    { unfold its', its. apply (combine_set_g crel_stat (map fst items) (map snd kids) i xi2 (o, ib) xi); [apply crel_stat_refl|exact Hits|].
+      split; [reflexivity|]. apply (xieq_stat cs). exact Hieq. }
+    assert (Hfe : Forall2 (fun x y : copt * bool * xinfo => feq (xc (snd x)) (xc (snd y))) its' its).
+    { unfold its', its.
+      apply (combine_set_g (fun x y : copt * bool * xinfo => feq (xc (snd x)) (xc (snd y))) (map fst items) (map snd kids) i xi2 (o, ib) xi);
+        [intro; apply feq_refl|exact Hits|apply Hieq]. }
+    assert (Hcls : xieq (xcol_cs s w (o, ib, xi)) xi2 xi).
+    { destruct Hcs as [<-|[c [n [n' [Ecs Ecs']]]]]; [exact Hieq|]. rewrite Ecs'. apply (xieq_box _ _ _ _ _ Hieq).
+      rewrite Ecs in Hcf. destruct (FO _ Hcf) as [Hx|[Hx _]]; [|cbn [fst] in Hx; qlia].
+      unfold is_fixed in Hx. cbn [fst] in Hx.
+      (* a box size with a negative width never fits; use the width of the entry instead *)
+      exfalso. pose proof (Forall_forall (fun t : Z * Z * size => 1 <= cw t) (xcolumns_sizes its i dc mw s)) as [HF _].
+      specialize (HF Hwid (w, h, cs) (nthz_In _ _ _ Hent)). unfold cw in HF. cbn [fst] in HF.
+      destruct (xcolumns_sizes_shape its i dc mw s i _ Hent) as [o1 [b1 [xi1 [_ Hsh]]]]. unfold col_shape in Hsh.
+      rewrite Ecs in Hsh. destruct Hsh as [Hsh|[Hsh|[Hsh _]]]; [discriminate Hsh| |discriminate Hsh].
+      inversion Hsh; subst. qlia. }
+    assert (Esz' : xcolumns_sizes its' i dc mw s = xcolumns_sizes its i dc mw s).
+    { destruct (is_fixed s) eqn:Efs.
+      - apply (xcolumns_sizes_cong_fixed s its' its i dc mw Efs); [|exact Hwid].
+        unfold its', its. apply (combine_set_g (xcrel_f s) (map fst items) (map snd kids) i xi2 (o, ib) xi); [apply xcrel_f_refl|exact Hits|].
+        split; [reflexivity|]. cbn [snd]. unfold xcol_cs in *. rewrite Efs in *. exact Hcls.
+      - apply (xcolumns_sizes_cong_sized s its' its i dc mw Efs Hst); [|exact Hwid].
+        rewrite Eits'.
+        apply (combine_set_g (xzrel s) (xcolumn_widths its i dc mw (fst s)) its i (o, ib, xi2) w (o, ib, xi)); [apply xzrel_refl|apply Hzip; reflexivity|].
+        split; [reflexivity|]. split; [reflexivity|]. cbn [fst snd]. exact Hcls. }
+    assert (Hpk : Forall2 packrel (combine (xcolumns_sizes its i dc mw s) its') (combine (xcolumns_sizes its i dc mw s) its)).
+    { rewrite Eits'.
+      apply (combine_set_g packrel (xcolumns_sizes its i dc mw s) its i (o, ib, xi2) (w, h, cs) (o, ib, xi)); [apply packrel_refl| |].
+      - apply nthz_combine; assumption.
+      - split; [reflexivity|]. cbn [fst snd]. destruct Hieq as [_ [_ [_ [Hp1 [Hp2 _]]]]]. split; [exact Hp1|exact Hp2]. }
+    assert (Hfit2 : xcolumns_fits its' i dc mw s = true) by (apply (xcolumns_fits_cong its' its i dc mw s Esz' Hst Hpk Hni_fit)).
+    assert (Elen' : length (map fst items) = length (set_nth_g (map snd kids) i xi2)).
+    { rewrite set_nth_g_length. exact Elen. }
+    assert (Eki' : map snd its' = set_nth_g (map snd kids) i xi2) by (apply map_snd_combine; exact Elen').
+    split; [rewrite Hz, Hz'; reflexivity|].
+    split; [apply xcolumns_info_cong; [exact Hst|exact Hfe|rewrite Esz'; exact Esz]|]. split.
+    + rewrite <- set_nth_v_g.
+      apply (xstep_fits (Columns items fp dc mw) _ (xcolumns_node its fp dc mw) _ (map fst kids) i v2 s Hf).
+      * unfold xcolumns_node. cbn [n_fits]. exact Hfit2.
+      * unfold xcolumns_node. cbn [n_place]. intros q Hq. rewrite Esz', Esz in Hq.
+        apply (xcolumns_place_refocus its fp dc mw s i q Hn Hq).
+      * unfold xcolumns_node. cbn [n_place]. intros q Hq Hqi. rewrite (Hfun q Hq Hqi). cbn [p_size]. exact Hfit'.
+      * rewrite zlen_map. exact Hik.
+    + intro Hne. destruct (Hasked Hne) as [_ [Hrow [x Hcur]]].
+      destruct Hieq as [[Es [Ec [Em Eb]]] Erest].
+      destruct (xall_all c2) as [[Ok2 _] _]. unfold XOk in Ok2. fold v2 xi2 in Ok2.
+      split; [|split].
+      * unfold xcolumns_cinfo. destruct (xcolumns_sizing its) as [[? ?] ?]. cbn [i_sel]. apply existsb_exists.
+        exists (o, ib, xi). split; [eapply nthz_In; eauto|]. exact Esel.
+      * pose proof (xcolumns_within its fp dc mw s _ Hn Hsok Hp) as HW. cbn [p_idx p_size p_x p_y] in HW.
+        rewrite Einfo in HW. destruct HW as [_ [_ [Hy0 Hy1]]]; [apply FO; exact Hcf|]. clear - Hy0 Hy1 Hrow. qlia.
+      * set (kids' := set_nth_g kids i (v2, xi2)).
+        assert (Ekv' : map fst kids' = set_nth_g (map fst kids) i v2) by (unfold kids'; rewrite map_set_nth_g; reflexivity).
+        assert (Ekx' : map snd kids' = set_nth_g (map snd kids) i xi2) by (unfold kids'; rewrite map_set_nth_g; reflexivity).
+        rewrite <- Ekv'.
+        assert (Hk2 : nthz kids' i = Some (v2, xi2)) by (apply nthz_set_nth_g_same; exact Hik).
+        assert (Ev2 : nth_view (Columns (set_nth_w items i c2) i dc mw) (map fst kids') i = v2).
+        { unfold nth_view. rewrite nthz_map, Hk2. reflexivity. }
+        assert (Ex2 : nth_xinfo (map snd kids') i = xi2).
+        { unfold nth_xinfo. rewrite nthz_map, Hk2. reflexivity. }
+        apply (xstep_cursor _ (xcolumns_node its' i dc mw) kids' s i cs x row row).
+        -- rewrite Ekx', <- Eki'. apply (xcolumns_cursor_ok its' i dc mw).
+        -- unfold xcolumns_node. cbn [n_fits]. exact Hfit2.
+        -- exact Hsok.
+        -- exists (Placed i x0 0 cs (i =? i) false). unfold xcolumns_node. cbn [n_place p_isfocus p_idx p_size p_y].
+           split; [rewrite Esz', Esz; exact Hp'|]. clear. repeat split; qlia.
+        -- rewrite Ev2. exact Hcur.
+        -- rewrite Ex2, Es. exact Esel.
+        -- rewrite Ex2, <- Ok2. apply xhasmove_hascur. fold v2. rewrite Ok2, Em, <- Ok. exact Ehm.
+        -- apply FO. exact Hcf.
+        -- rewrite Ex2. rewrite (xh_xieq cs xi2 xi); [apply Hrow|]. split; [repeat split; assumption|exact Erest].
+Qed.
+
+(* ------------------------------------------------------------------------------------------ *)
+(* Part 7: every tree of the extended model, every size including ()                            *)
+(* ------------------------------------------------------------------------------------------ *)
+Theorem xmove_ok_all : forall w, XMoveOK w.
+Proof.
+  induction w using widget_ind2.
+  - destruct (sized_tree (Leaf l)) eqn:Hz; [apply xmove_ok_sized; exact Hz|].
+    intros s col row. rewrite xview_eq, Hz. cbn [fst]. unfold xleaf_view. cbn [sized_tree] in Hz.
+    assert (E : 0 <? lfw l = true \/ 0 <? lfw l = false) by (destruct (0 <? lfw l); auto).
+    destruct E as [E|E]; rewrite E; cbn [v_fits v_info v_move m_ok].
+    + intros _ _ H. discriminate H.
+    + intros Hf. apply andb_true_iff in Hf as [Hnf Hf]. cbn [leaf_view v_fits] in Hf. unfold leaf_fits in Hf.
+      repeat (apply andb_true_iff in Hf as [Hf ?]). qlia.
+  - apply xmove_ok_pile. exact H.
+  - apply xmove_ok_columns. exact H.
+  - apply xmove_ok_padding. exact IHw.
+  - apply xmove_ok_filler. exact IHw.
+  - destruct (sized_tree (Frame w hdr ftr fpt)) eqn:Hz; [apply xmove_ok_sized; exact Hz|].
+    intros s col row. rewrite (xview_unsized' _ Hz I). intros _ Hm. discriminate Hm.
+  - apply xmove_ok_boxadapter. exact IHw.
+  - apply xmove_ok_attrmap. exact IHw.
+  - match goal with |- XMoveOK ?W => destruct (sized_tree W) eqn:Hz; [apply xmove_ok_sized; exact Hz|];
+      intros s col row; rewrite (xview_unsized' _ Hz I); intros _ Hm; discriminate Hm end.
+Qed.
+
+(* after a successful move that went down to a leaf: the tree still fits and the reported cursor is on the requested row *)
+Theorem xcursor_on_requested_row : forall w s col row,
+  v_fits (fst (xview w)) s = true -> i_hasmove (v_info (fst (xview w))) = true ->
+  let m := v_move (fst (xview w)) s col row in
+  m_ok m = true -> m_asked m <> None ->
+  v_fits (fst (xview (m_w m))) s = true /\ exists x, v_cursor (fst (xview (m_w m))) s = CSome x row.
+Proof.
+  intros w s col row Hf Hm m Hok Hasked.
+  destruct (xmove_ok_all w s col row Hf Hm Hok) as [_ [_ [H1 H2]]].
+  split; [exact H1|]. destruct (H2 Hasked) as [_ [_ H3]]. exact H3.
 Qed.
